@@ -478,6 +478,8 @@ type histOp struct {
 	Parts int    `json:"parts"`
 	Fault string `json:"fault"` // label#n within this operation
 	Res   string `json:"res"`   // ok | err
+	// PartBase shifts the batch's partition names (scripted histories: files of different partitions => several merge groups)
+	PartBase int `json:"part_base"`
 }
 
 type imageObs struct {
@@ -589,6 +591,9 @@ func runCrash(out string, seed int64, nHist int, tier string, guard *h.StdioGuar
 		st := bs.NewFileSystemDataStore(dir)
 		cfg := engineCfg()
 		cfg.MaxFilesToMergePerOperation = 2 + rng.Intn(2)
+		if hi >= 3 && hi <= 5 {
+			cfg.MaxFilesToMergePerOperation = 10 // the scripted two-group merges
+		}
 		eng, err := bs.NewBloomSearchEngine(cfg, st, st)
 		h.Must(err, "engine")
 		eng.Start()
@@ -631,6 +636,11 @@ func runCrash(out string, seed int64, nHist int, tier string, guard *h.StdioGuar
 			script = []histOp{{Kind: "flush"}, {Kind: "flush"}, {Kind: "merge", Fault: "update.remove#1"}, {Kind: "flush"}}
 		case 2:
 			script = []histOp{{Kind: "flush"}, {Kind: "flush"}, {Kind: "flush"}, {Kind: "merge", Fault: "update.remove#2"}}
+		case 3, 4, 5:
+			// a merge of two groups (two partitions, two files each) whose second output fails after the first one was
+			// published: the first output is an orphan the merge has to remove again - durably
+			script = []histOp{{Kind: "flush", Parts: 1}, {Kind: "flush", Parts: 1}, {Kind: "flush", Parts: 1, PartBase: 5}, {Kind: "flush", Parts: 1, PartBase: 5},
+				{Kind: "merge", Fault: []string{"rename#2", "write#5", "dirsync#2"}[hi-3]}, {Kind: "flush", Parts: 1}}
 		}
 		if script != nil {
 			nops = len(script)
@@ -681,12 +691,15 @@ func runCrash(out string, seed int64, nHist int, tier string, guard *h.StdioGuar
 				op.Batch = fmt.Sprintf("h%db%d", hi, bno)
 				op.Rows = 1 + rng.Intn(4)
 				op.Parts = 1 + rng.Intn(2)
+				if script != nil && script[oi].Parts > 0 {
+					op.Parts, op.PartBase = script[oi].Parts, script[oi].PartBase
+				}
 				var rows []map[string]any
 				var ids []string
 				for r := 0; r < op.Rows; r++ {
 					id := fmt.Sprintf("%sr%d", op.Batch, r)
 					ids = append(ids, id)
-					rows = append(rows, map[string]any{"id": id, "p": fmt.Sprintf("p%d", r%op.Parts), "v": r})
+					rows = append(rows, map[string]any{"id": id, "p": fmt.Sprintf("p%d", op.PartBase+r%op.Parts), "v": r})
 				}
 				mu.Lock()
 				for _, id := range ids {
@@ -767,6 +780,7 @@ func runCrash(out string, seed int64, nHist int, tier string, guard *h.StdioGuar
 		type win struct{ from, to int }
 		var windows []win
 		openWin := -1
+		mergeOuts := map[string]bool{} // outputs renamed into place by merges
 		isMergeOp := func(hidx int) bool { return hidx < len(ops) && ops[hidx].Kind == "merge" }
 		for k := 0; k < len(events); k++ {
 			ev := events[k]
@@ -787,7 +801,20 @@ func runCrash(out string, seed int64, nHist int, tier string, guard *h.StdioGuar
 				dirDurable = true
 			}
 			// window bookkeeping (on the state before this boundary's operation)
-			if dirDurable && openWin >= 0 && (ev.Op != "published") {
+			if ev.Op == "dirsync" && isMergeOp(ev.Hist) && prev.Op == "rename" {
+				mergeOuts[prev.Path] = true
+			}
+			// a failed merge that had already published the output of an earlier group keeps its window open until that
+			// orphan is durably gone again (or the Merge returns)
+			orphan := false
+			if ev.Op == "abort.done" || ev.Op == "tomb.done" {
+				for n := range mergeOuts {
+					if _, ok := ev.Snap[n]; ok {
+						orphan = true
+					}
+				}
+			}
+			if dirDurable && openWin >= 0 && (ev.Op != "published") && !orphan {
 				windows = append(windows, win{openWin, k - 1})
 				openWin = -1
 			}
